@@ -32,6 +32,11 @@ def run(prog, tier):
     # ... and only while no two stored frames share their points / analogs (a column added to one then lands in both)
     import p_c08
     p_c08.ownership_rules(prog, res, rule_prefix='data-uniform/ownership')
+    # the header / parameter counts are those of the data only if every mutator ends in the updaters
+    p_c05.updater_reach_rule(prog, res)
+    # the file holds this save only: the destination is truncated when it is opened
+    import p_c14
+    p_c14.fresh_file_rule(prog, res, rule='file-extent')
     # a CHAR cell is dimension[0] bytes wide: the setter must declare the longest stored string
     import p_c09
     p_c09.longest_string_rule(prog, res, 'cell-width/declared')
